@@ -295,6 +295,30 @@ pub fn escape_programs() -> Vec<Prog> {
         .collect()
 }
 
+/// Numeric field ids of every decimal length, at the digit-group boundaries of the printers.
+pub const DIGIT_IDS: [u32; 20] = [
+    5, 42, 123, 999, 1000, 1234, 12345, 99999, 100000, 123456, 999999, 1000000, 1234567, 12345678, 99999999, 100000000, 123456789, 999999999, 1000000000,
+    4294967295,
+];
+
+/// One program per numeric id: the id as record field, as variant tag, next to a named field.
+pub fn id_programs() -> Vec<Prog> {
+    DIGIT_IDS
+        .iter()
+        .map(|n| Prog {
+            defs: vec![(
+                "t".to_string(),
+                PTy::Record(vec![
+                    (PLabel::Id(*n), p(Prim::Nat)),
+                    (PLabel::named("name"), PTy::Variant(vec![(PLabel::Id(*n), p(Prim::Null)), (PLabel::named("ok"), p(Prim::Text))])),
+                ]),
+            )],
+            actor: Some(PActor::Service(PTy::Service(vec![("m".to_string(), PTy::func(vec![PTy::var("t")], vec![PTy::Record(vec![(PLabel::Id(*n), p(Prim::Bool))])], vec![]))]))),
+            actor_name: None,
+        })
+        .collect()
+}
+
 /// Definition names: valid Candid identifiers that are not Candid keywords, including
 /// target-language keywords and names that collide after case conversion.
 pub fn def_names() -> Vec<String> {
@@ -306,7 +330,7 @@ pub fn def_names() -> Vec<String> {
         "constructor", "prototype", "toString", "Ok", "Err", "Some", "None", "Box", "Vec", "Option", "Result",
         "String", "id", "IDL", "Principal", "Nat", "Int", "Blob", "Bool", "Text", "Null", "Any", "true_", "table0",
         "idlFactory", "init", "std", "candid", "Deserialize", "CandidType", "Service", "service_", "u8", "i32",
-        "bool_", "str", "char", "usize", "f64",
+        "bool_", "str", "char", "usize", "f64", "_1", "__2b", "_7_days", "x86_64", "a_", "a__",
     ]
     .iter()
     .map(|s| s.to_string())
